@@ -34,6 +34,7 @@ class Captured:
     # alignment with final text
     line_obj: list = field(default_factory=list)  # text line index -> instruction object index | None
     main_end: int | None = None  # first text line of a function region
+    effective: dict = field(default_factory=dict)  # option values after in-source directives
 
     @property
     def ok(self):
@@ -105,6 +106,7 @@ def compile_capture(src, **opts) -> Captured:
     try:
         o = CompileOptions(**opts)
         cap.result = compile_code(src if isinstance(src, str) else dict(src), o)
+        cap.effective = {n: getattr(o, n, None) for n in OPTION_NAMES}
     except BaseException as e:  # compile_code must never raise (C10); recorded
         cap.exc = f"{type(e).__name__}: {e}"
         cap.result = {"error": {"description": "EXCEPTION " + cap.exc}}
